@@ -202,6 +202,68 @@ def huge_specs():
     return out
 
 
+SCALE_SIZES = tuple(sorted(set(range(34, 130)) | set(range(130, 1300, 13)) | {1500, 2049, 2501, 3333, 5001}))
+SCALE_SIZES_THOROUGH = tuple(sorted(set(range(34, 400)) | set(range(400, 2700, 7)) | {3333, 5001, 10007, 20011}))
+_SCALE_PAL = ((("fg", 31),), (("bold", True), ("fg", 34)), (), (("bg", 45), ("underline", True)))
+
+
+def scale_spec(n, shape):
+    """A value of exactly n characters. shape: 'one' (one run), 'runs7' (runs of 7 in 4 formats), 'unit_runs' (n runs of one
+    character each, two formats alternating, an empty run after every 5th), 'words' (words of 1..9 letters separated by single spaces,
+    formats change every 3 words), 'wide' (ASCII, fullwidth, combining and CJK characters mixed, runs of 5)."""
+    if shape == "one":
+        return ((("abcdefghij" * (n // 10 + 1))[:n], _SCALE_PAL[0]),)
+    if shape == "runs7":
+        text = ("abcdefghijklmnopqrstuvw" * (n // 23 + 1))[:n]
+        return tuple((text[i : i + 7], _SCALE_PAL[(i // 7) % 4]) for i in range(0, n, 7))
+    if shape == "unit_runs":
+        out = []
+        for i in range(n):
+            out.append((LETTERS[i % 26], _SCALE_PAL[i % 2]))
+            if i % 5 == 4:
+                out.append(("", _SCALE_PAL[3]))
+        return tuple(out)
+    if shape == "words":
+        words, total, k = [], 0, 0
+        while total < n:
+            w = LETTERS[k % 26] * (1 + (k * 7) % 9) + " "
+            words.append(w)
+            total += len(w)
+            k += 1
+        text = "".join(words)[:n]
+        out, pos, k = [], 0, 0
+        for w in words:
+            piece = text[pos : pos + len(w)]
+            if piece:
+                out.append((piece, _SCALE_PAL[(k // 3) % 4]))
+            pos += len(w)
+            k += 1
+        return tuple(out)
+    if shape == "wide":
+        text = ("aＥ\u0300漢b cＤe\u0301" * (n // 10 + 1))[:n]
+        return tuple((text[i : i + 5], _SCALE_PAL[(i // 5) % 3]) for i in range(0, n, 5))
+    raise ValueError(shape)
+
+
+SCALE_SHAPES = ("one", "runs7", "unit_runs", "words", "wide")
+
+
+def scale_specs(thorough=False, shapes=SCALE_SHAPES, per_size=2):
+    """Sweep of sizes far beyond small: EVERY length 34..129, every 13th up to 1300, then 1500, 2049, 2501, 3333, 5001 (thorough: every
+    length to 399, every 7th to 2700, 10007, 20011); `per_size` shapes per size, rotating, so that every shape meets every residue.
+    Code that switches behaviour above a size chosen by its author (fast path, cache minimum, chunking) is reached by all larger sizes;
+    code that does something every so-many characters meets the many different lengths and the point sweeps of the callers."""
+    out = []
+    sizes = SCALE_SIZES_THOROUGH if thorough else SCALE_SIZES
+    for k, n in enumerate(sizes):
+        for j in range(per_size):
+            shape = shapes[(k + j * 2) % len(shapes)]
+            if shape == "unit_runs" and n > 2700:
+                shape = "runs7"
+            out.append(scale_spec(n, shape))
+    return out
+
+
 def few_points(spec, limit=24):
     pts = boundary_points(spec)
     if len(pts) <= limit:
